@@ -18,7 +18,7 @@ from __future__ import annotations
 import z3
 
 from pyvc import stdlib
-from pyvc.harness import Task, call_catch, fdeque, fint, freal, T
+from pyvc.harness import Task, call_catch, fdeque, fint, freal, T, param
 from pyvc.interp import LoopSpec
 from pyvc.values import BoundV, FuncV, LockV, Obj, Sym, fresh_name
 
@@ -50,6 +50,9 @@ def make_budget(it, tree):
     })
     last = z3.Real(fresh_name("last_now"))
     it.path.ghost["now"] = last
+    from contracts import locks
+    b.monitor = locks.install_monitor(it, b, KEY)
+    it.path.ghost["budget_obj"] = b
     maxr, w = b.fields["max_retries"].t, b.fields["window_s"].t
     it.path.assume(z3.And(maxr >= 0, w > 0))  # established by __init__ (task budget.__init__)
     for _, f in budget_inv(dq.arr, dq.lo, dq.hi, maxr, w, last):
@@ -61,12 +64,13 @@ def prune_spec():
     """while self._events and self._events[0] <= cutoff: popleft()"""
 
     def setup(it, env):
-        dq = env.lookup("self").fields["_events"]
+        dq = param(env, 0).fields["_events"]
         return {"dq": dq, "lo0": dq.lo, "hi0": dq.hi, "arr0": dq.arr}
 
     def inv(it, env, idx, ctx):
         dq = ctx["dq"]
-        cutoff = env.lookup("cutoff")
+        me = param(env, 0)
+        cutoff = Sym(param(env, 1).t - me.fields["window_s"].t, "real")  # now - window_s, by parameter position
         i = z3.Int("i!p")
         return [
             ("range", z3.And(ctx["lo0"] <= dq.lo, dq.lo <= dq.hi)),
@@ -78,19 +82,19 @@ def prune_spec():
         dq = ctx["dq"]
         return dq.hi - dq.lo
 
-    return LoopSpec(inv, setup=setup, decreases=decreases, prop=P)
+    return LoopSpec(inv, setup=setup, decreases=decreases, prop=P, modifies=lambda it, env, ctx: [(ctx['dq'], None)])
 
 
 def append_spec():
     """for _ in range(cost): self._events.append(now)"""
 
     def setup(it, env):
-        dq = env.lookup("self").fields["_events"]
+        dq = param(env, 0).fields["_events"]
         return {"dq": dq, "lo0": dq.lo, "hi0": dq.hi, "arr0": dq.arr}
 
     def inv(it, env, idx, ctx):
         dq = ctx["dq"]
-        now = env.lookup("now")
+        now = Sym(it.path.ghost["now"], "real")  # the one clock reading of this consume()
         k = idx.t if isinstance(idx, Sym) else z3.IntVal(idx)
         i = z3.Int("i!a")
         return [
@@ -99,11 +103,21 @@ def append_spec():
             ("new-are-now", z3.ForAll([i], z3.Implies(z3.And(ctx["hi0"] <= i, i < dq.hi), dq.arr[i] == now.t))),
         ]
 
-    return LoopSpec(inv, setup=setup, prop=P)
+    return LoopSpec(inv, setup=setup, prop=P, modifies=lambda it, env, ctx: [(ctx['dq'], None)])
 
 
 def install(it):
     stdlib.install_clock(it)
+    base_clock = it.ext_models["time.monotonic"]
+
+    def guarded_clock(it_, args, kwargs, node):
+        b = it_.path.ghost.get("budget_obj")
+        if b is not None:
+            from contracts import locks
+            locks.clock_guard(it_, b.fields["_lock"], KEY + ".<clock call>")
+        return base_clock(it_, args, kwargs, node)
+
+    it.ext_models["time.monotonic"] = guarded_clock
     it.loop_specs[("redress.budget:Budget._prune", 1)] = prune_spec()
     it.loop_specs[("redress.budget:Budget.consume", 1)] = append_spec()
 
@@ -173,7 +187,8 @@ def t_consume(it):
         now = it.path.ghost["now"]
         it.path.oblige(f"{base}/ensures/cost>=1", c >= 1, prop=P)
         it.path.oblige(f"{base}/ensures/one-clock-read", it.path.ghost.get("clock_reads", 0) == 1, prop=P)
-        it.path.oblige(f"{base}/ensures/lock-released", b.fields["_lock"].held is False, prop="C17")
+        from contracts import locks
+        locks.exit_obligations(it, b, b.monitor, base)
         # p := lo after pruning is the split point of the *old* history at now - window_s
         # (granted: lo unchanged by the append loop)
         p = dq.lo
@@ -220,7 +235,8 @@ def t_remaining(it):
         from pyvc.ops import term
         it.path.oblige(f"{base}/ensures/result", term(r[1]) == z3.If(maxr - live > 0, maxr - live, 0), prop=P)
         it.path.oblige(f"{base}/ensures/history-unchanged", z3.And(dq.hi == hi0, dq.arr == arr0), prop=P)
-        it.path.oblige(f"{base}/ensures/lock-released", b.fields["_lock"].held is False, prop="C17")
+        from contracts import locks
+        locks.exit_obligations(it, b, b.monitor, base)
         for n, f in budget_inv(dq.arr, dq.lo, dq.hi, maxr, w, now):
             it.path.oblige(f"{base}/ensures/inv/{n}", f, prop=P)
         it.path.cover(f"{base}/normal")
